@@ -203,6 +203,45 @@ def replay_kernel_spec(key, mode, env, case="", ncols=2):
             "function": f.__name__, "parameters": par}
 
 
+def extreme_scale_replay(key, mode, case=""):
+    """Native: real kernel on floats against the spec at geometric scales 1e-9 .. 1e6 (points close together / far apart / far from the origin).
+    Used when the symbolic execution meets a branch on symbolic values (e.g. a clamp `max(r2, eps)`): an absolute tolerance inside a kernel shows
+    up as a mismatch at an extreme scale."""
+    worst, where = 0.0, None
+    rng = np.random.RandomState(12)
+    Y0 = rng.uniform(0.2, 1.0, size=(3, 2))
+    X0 = rng.uniform(-1.0, -0.2, size=(3, 2) if mode != "regular" else (3,))
+    NX0 = rng.randn(3)
+    NX0 /= np.linalg.norm(NX0)
+    NY0 = rng.randn(3, 2) if mode == "regular" else rng.randn(3)
+    NY0 = NY0 / np.linalg.norm(NY0, axis=0)
+    base = (X0, Y0, NX0, NY0)
+    n = KS.NPARAMS[key]
+    for scale in (1e-9, 1e-6, 1e-3, 1.0, 1e3, 1e6):
+        for shift in (0.0, 1e5):
+            X, Y, NX, NY = [np.array(a, dtype=float) for a in base]
+            X, Y = X * scale + shift * scale, Y * scale + shift * scale
+            kk = 1.0 / scale
+            par = [] if n == 0 else [0.9 * kk] if n == 1 else [1.1 * kk, 0.0 if case == "ki==0" else 0.4 * kk]
+            f = pyfunc(kernel_function(key, mode))
+            try:
+                out = f(X, Y, NX, NY, np.array(par, dtype=float))
+            except Exception as ex:  # noqa
+                return {"violates": True, "observed": "%s: %s" % (type(ex).__name__, ex), "scale": scale}
+            for j in range(2):
+                x, y, nx, ny = column(mode, X, Y, NX, NY, j)
+                sv = complex(KS.SPEC[key](x, y, nx, ny, par))
+                if not np.isfinite(sv) or abs(sv) > 1e200 or abs(sv) < 1e-200:
+                    continue      # the specification itself leaves the floating-point range at this scale: no verdict from this sample
+                e = abs(complex(out[j]) - sv) / max(1e-300, abs(sv))
+                if not np.isfinite(e):
+                    e = 1.0
+                if e > worst:
+                    worst, where = e, {"scale": scale, "shift": shift, "observed": [complex(out[j]).real, complex(out[j]).imag], "required": [sv.real, sv.imag]}
+    # far from the origin the difference y - x loses digits: relative accuracy 1e-16 * 1e5 / 1 in the distance
+    return {"violates": bool(worst > 1e-8), "relative_error": worst, "where": where}
+
+
 def ob_code_equals_spec(key, mode):
     """post: for all j: out[j] == spec(column j); all parameter cases."""
     res = []
@@ -210,7 +249,18 @@ def ob_code_equals_spec(key, mode):
         S.reset()
         case, par = [c for c in param_cases(key) if c[0] == case][0]
         X, Y, NX, NY = inputs(mode)
-        out = run_real(key, mode, X, Y, NX, NY, par)
+        try:
+            out = run_real(key, mode, X, Y, NX, NY, par)
+        except S.Undecided as ex:
+            # control flow on symbolic values (a comparison, max / min, abs): decide by the native extreme-scale replay
+            rp = extreme_scale_replay(key, mode, case)
+            if rp["violates"]:
+                res.append((case, violated("kernel %s (%s, case %s) branches on its data (%s) and differs from its spec at an extreme scale: %s" % (key, mode, case, ex, rp),
+                                           witness=rp.get("where"), replay={"callable": "vlib.kernelrun:extreme_scale_replay", "kwargs": {"key": key, "mode": mode, "case": case},
+                                                                           "confirmed": True, "result": rp}, signature="%s/%s/branch" % (key, mode))))
+            else:
+                res.append((case, undecided("kernel %s (%s) branches on symbolic values: %s; native extreme-scale replay agrees with the spec (%.1e)" % (key, mode, ex, rp["relative_error"]))))
+            continue
         if len(out) != 2:
             res.append((case, violated("result has %d columns for 2 trial points" % len(out))))
             continue
